@@ -162,10 +162,9 @@ macro_rules! step {
             }
             kani::cover!(z.is_some() && fits && expect.is_ok(), "a frame is delivered");
             kani::cover!(z.is_none() && fits && clen > 0, "bytes are buffered");
-            if $mode == Mode::Any {
-                kani::cover!(z.is_some() && !fits, "overflow with sentinel");
-                kani::cover!(z.is_none() && !fits, "overflow without sentinel");
-            }
+            // (trivially satisfied under the "fits" premise, where overflow is assumed away)
+            kani::cover!($mode == Mode::Fits || (z.is_some() && !fits), "overflow with sentinel");
+            kani::cover!($mode == Mode::Fits || (z.is_none() && !fits), "overflow without sentinel");
         }
     };
 }
@@ -173,26 +172,26 @@ macro_rules! step {
 // ---- C08: exactly-once delivery under the "fits" premise
 //@ tier=quick class=core cap=900 bounds="N=4: any state satisfying I x any chunk of 0..=7 bytes, T=u16; one inductive step" hooks=H1
 step!(c08_step_n4_u16, 4, u16, Mode::Fits, 12, feed);
-//@ tier=quick class=core cap=900 bounds="N=3: any state x any chunk of 0..=6 bytes, T=(u8,u8)" hooks=H1
-step!(c08_step_n3_pair, 3, (u8, u8), Mode::Fits, 11, feed);
+//@ tier=quick class=core cap=900 bounds="N=3: any state x any chunk of 0..=6 bytes, T=u8" hooks=H1
+step!(c08_step_n3_u8, 3, u8, Mode::Fits, 11, feed);
 //@ tier=thorough class=core cap=2400 bounds="N=5: any state x any chunk of 0..=8 bytes, T=u16" hooks=H1
 step!(c08_step_n5_u16, 5, u16, Mode::Fits, 14, feed);
 //@ tier=thorough class=core cap=2400 bounds="N=5: any state x any chunk of 0..=8, T=byte array borrowing the accumulator buffer (feed_ref)" hooks=H1
 step!(c08_step_n5_bytes_ref, 5, BytesD, Mode::Fits, 14, feed_ref);
 //@ tier=thorough class=core cap=3600 bounds="N=8: any state x any chunk of 0..=11 bytes, T=u16" hooks=H1
 step!(c08_step_n8_u16, 8, u16, Mode::Fits, 20, feed);
-//@ tier=thorough class=core cap=900 bounds="N=1: any state x any chunk of 0..=4 bytes, T=u16" hooks=H1
-step!(c08_step_n1_u16, 1, u16, Mode::Fits, 8, feed);
-//@ tier=thorough class=core cap=900 bounds="N=2: any state x any chunk of 0..=5 bytes, T=u16" hooks=H1
-step!(c08_step_n2_u16, 2, u16, Mode::Fits, 9, feed);
+//@ tier=thorough class=core cap=900 bounds="N=1: any state x any chunk of 0..=4 bytes, T=() (the only frame that fits is the empty one)" hooks=H1
+step!(c08_step_n1_unit, 1, (), Mode::Fits, 8, feed);
+//@ tier=thorough class=core cap=900 bounds="N=2: any state x any chunk of 0..=5 bytes, T=()" hooks=H1
+step!(c08_step_n2_unit, 2, (), Mode::Fits, 9, feed);
 
 // ---- C09: overflow, reset, progress, no panic — no premise
 //@ tier=quick class=core cap=900 bounds="N=4: any state satisfying I x any chunk of 0..=7 bytes incl. over-long segments, T=u16" hooks=H1
 step!(c09_step_n4_u16, 4, u16, Mode::Any, 12, feed);
-//@ tier=quick class=core cap=600 bounds="N=1 (smallest capacity): any state x any chunk of 0..=4 bytes" hooks=H1
-step!(c09_step_n1_u16, 1, u16, Mode::Any, 8, feed);
-//@ tier=thorough class=core cap=900 bounds="N=2: any state x any chunk of 0..=5 bytes" hooks=H1
-step!(c09_step_n2_u16, 2, u16, Mode::Any, 9, feed);
+//@ tier=quick class=core cap=600 bounds="N=1 (smallest capacity): any state x any chunk of 0..=4 bytes, T=()" hooks=H1
+step!(c09_step_n1_unit, 1, (), Mode::Any, 8, feed);
+//@ tier=thorough class=core cap=900 bounds="N=2: any state x any chunk of 0..=5 bytes, T=()" hooks=H1
+step!(c09_step_n2_unit, 2, (), Mode::Any, 9, feed);
 //@ tier=thorough class=core cap=2400 bounds="N=5: any state x any chunk of 0..=8 bytes, T=(u8,u8)" hooks=H1
 step!(c09_step_n5_pair, 5, (u8, u8), Mode::Any, 14, feed);
 //@ tier=thorough class=core cap=3600 bounds="N=8: any state x any chunk of 0..=11 bytes, T=u16" hooks=H1
@@ -248,8 +247,8 @@ fn c09_resync_after_reset() {
 
 /// Overflow, then the sentinel, then a good frame: two public-API steps from an arbitrary state.
 #[kani::proof]
-#[kani::unwind(12)]
-//@ tier=thorough class=core cap=2400 bounds="N=5: any state, garbage chunk of 1..=8 bytes ending in zero, then a frame of any u16: Success with that value" hooks=H1
+#[kani::unwind(9)]
+//@ tier=thorough class=core cap=2400 bounds="N=5: any state, garbage chunk of 1..=5 bytes ending in zero, then a frame of any u16: Success with that value" hooks=H1
 fn c09_resync_two_step() {
     const N: usize = 5;
     let buf: [u8; N] = kani::any();
@@ -261,9 +260,9 @@ fn c09_resync_two_step() {
         i += 1;
     }
     let mut acc = CobsAccumulator::<N>::verif_from_parts(buf, idx);
-    let garbage: [u8; 8] = kani::any();
+    let garbage: [u8; 5] = kani::any();
     let glen: usize = kani::any();
-    kani::assume(glen >= 1 && glen <= 8);
+    kani::assume(glen >= 1 && glen <= 5);
     kani::assume(garbage[glen - 1] == 0);
     // documented loop
     let mut window = &garbage[..glen];
@@ -276,7 +275,7 @@ fn c09_resync_two_step() {
             FeedResult::Success { remaining, .. } => remaining,
         };
         iters += 1;
-        assert!(iters <= 9, "feed loop exceeded its progress bound");
+        assert!(iters <= 6, "feed loop exceeded its progress bound");
     }
     assert!(acc.verif_parts().1 == 0, "not back in the initial state after a sentinel");
     let v: u16 = kani::any();
@@ -286,12 +285,12 @@ fn c09_resync_two_step() {
         FeedResult::Success { data, remaining } => assert!(data == v && remaining.is_empty()),
         _ => assert!(false, "frame following a sentinel was not delivered intact"),
     }
-    kani::cover!(glen == 8 && idx == N, "overflowing garbage reachable");
+    kani::cover!(glen == 5 && idx == N, "overflowing garbage reachable");
 }
 
 /// Bounded history from `new()` through the public API only (sanity for the induction).
 #[kani::proof]
-#[kani::unwind(8)]
+#[kani::unwind(10)]
 //@ tier=thorough class=core cap=3600 bounds="N=4, new(), 2 chunks of 0..=4 symbolic bytes fed with the documented re-feed loop, every segment fits; results vs segment-by-segment isolated decoding (T=u8 payload pair)"
 fn c08_history_two_chunks() {
     const N: usize = 4;
